@@ -33,7 +33,18 @@ type step struct {
 	R    int      `json:"r"`
 	Busy bool     `json:"busy"` // other values are compressed / decompressed while the write is on its way
 	D    int      `json:"d"`    // nesting depth of the reply of a read: 0 bulk, 1 flat array, 2 nested array
+	N    string   `json:"n"`    // the backend connection the request is first sent over ("a", "b"; "any": connection age not modelled); the node of a reconnect
 }
+
+// physical node of a modelled connection
+func phys(n string) int {
+	if n == "b" {
+		return 1
+	}
+	return 0
+}
+
+func modelled(n string) bool { return n == "a" || n == "b" }
 
 type bad struct {
 	Step int    `json:"step"`
@@ -50,6 +61,8 @@ type result struct {
 	Nested  int      `json:"nested"`  // values stored compressed that were read back inside a nested array
 	Multi   int      `json:"multi"`   // requests that carried two or more values that reached the backend compressed
 	Traffic int      `json:"traffic"` // background values written and read back while a write was on its way
+	OldConn int      `json:"oldconn"` // values stored compressed that were read back over a connection made before the config became what it is
+	OffConn int      `json:"offconn"` // compressible values written over a connection made while compression was enabled, after it was switched off
 	Cmds    []string `json:"cmds"`
 	Bad     []bad    `json:"bad"`
 	Err     string   `json:"err,omitempty"`
@@ -557,6 +570,54 @@ type replayer struct {
 	seq int
 	// keys that are read back with a command whose reply nests arrays
 	needHash map[string]bool
+	curCfg   string
+	// histories with connection age: the config under which the connection to each node was made
+	connCfg map[int]string
+}
+
+// reconnect breaks the processor's connection to node idx and waits until a new one is made (under the current config).
+func (e *env) reconnect(idx int) error {
+	node := e.cl.Nodes[idx]
+	before := node.AcceptCount()
+	node.ResetConns(true)
+	key := e.cl.KeyFor(idx, "reco:")
+	dl := time.Now().Add(connectTO)
+	for time.Now().Before(dl) {
+		v, err := e.c.Do(replyTO, "TYPE", key) // the first request may still meet the dying connection and fail
+		if err != nil {
+			e.sick = true
+			return fmt.Errorf("reconnect node %d: no reply: %v", idx, err)
+		}
+		if !v.IsErr() && node.AcceptCount() > before && node.ConnCount() >= 1 {
+			e.note("reconnected node%d", idx)
+			return nil
+		}
+		time.Sleep(time.Millisecond)
+	}
+	return fmt.Errorf("reconnect node %d: the processor did not connect again", idx)
+}
+
+// routeVia makes node idx the owner of key's slot and waits until the processor sends requests for the key straight to
+// it: the next request for the key passes the filter of the connection to that node.
+func (e *env) routeVia(key string, idx int) error {
+	slot := simredis.Slot([]byte(key))
+	if e.cl.Owner(slot) != idx {
+		e.cl.MoveSlot(slot, idx)
+		e.note("slot %d of %s moved to node%d", slot, key, idx)
+	}
+	dl := time.Now().Add(connectTO)
+	for time.Now().Before(dl) {
+		r0 := atomic.LoadInt64(&e.cl.Redirects)
+		if _, err := e.c.Do(replyTO, "TYPE", key); err != nil {
+			e.sick = true
+			return fmt.Errorf("routing %s via node %d: no reply: %v", key, idx, err)
+		}
+		if atomic.LoadInt64(&e.cl.Redirects) == r0 {
+			return nil
+		}
+		time.Sleep(2 * time.Millisecond)
+	}
+	return fmt.Errorf("routing %s via node %d: the processor keeps being redirected", key, idx)
 }
 
 // mix spreads the choice of the concrete command over the histories independently of their enumeration order.
@@ -611,6 +672,9 @@ func (p *replayer) write(i int, st step, variant int) *wrote {
 		}
 	} else {
 		name = multiCmds[variant%len(multiCmds)]
+		if modelled(st.N) {
+			name = multiCmds[variant%3] // every value over the same connection: one slot
+		}
 		if p.needHash[st.K] {
 			name = multiCmds[variant%2]
 		}
@@ -639,6 +703,12 @@ func (p *replayer) write(i int, st step, variant int) *wrote {
 	}
 	p.res.Cmds = append(p.res.Cmds, name)
 	req := resp.Bytes(resp.CmdB(args...))
+	if modelled(st.N) {
+		if err := e.routeVia(w.key, phys(st.N)); err != nil {
+			p.res.Err = err.Error()
+			return nil
+		}
+	}
 	from := e.cl.Owner(simredis.Slot([]byte(w.key)))
 	failed := e.failures()
 	final := e.hops(w.key, st.R)
@@ -721,6 +791,19 @@ func (p *replayer) write(i int, st step, variant int) *wrote {
 			w.packed[j] = true
 			p.res.Packed++
 			packed++
+		}
+		older := modelled(st.N) && p.connCfg[phys(st.N)] != p.curCfg
+		if older && p.connCfg[phys(st.N)] == "enabled" && st.Vals[j] != "small" && st.Vals[j] != "incomp" {
+			p.res.OffConn++
+		}
+		if p.curCfg != "enabled" && bytes.HasPrefix(stored, predis.VerifCompressHeader()) && !bytes.Equal(stored, w.origs[j]) {
+			// Compress.tla, OffMeansOff: switched off ("enable: false") or without a compression section nothing is compressed
+			sig := "stored-form/compressed-while-off"
+			if older {
+				sig = "stored-form/connection-older-than-config"
+			}
+			p.addBad(i, sig, fmt.Sprintf("%s, value %d of %d (%d bytes, %s): stored compressed (%d bytes) although compression is %s%s", name, j+1, n, len(w.origs[j]), st.Vals[j], len(stored), p.curCfg,
+				map[bool]string{true: "; the connection to the node was made while it was " + p.connCfg[phys(st.N)], false: ""}[older]))
 		}
 		if ok, why := storedFormOK(stored, w.origs[j]); !ok {
 			sig := fmt.Sprintf("stored-form/%s/redirects=%d", st.Vals[j], st.R)
@@ -816,6 +899,13 @@ func (p *replayer) read(i int, st step, w *wrote, variant int, curCfg string) {
 	var err error
 	name := ""
 	depth := st.D
+	if modelled(st.N) {
+		if err := e.routeVia(w.key, phys(st.N)); err != nil {
+			p.res.Err = err.Error()
+			return
+		}
+	}
+	older := modelled(st.N) && p.connCfg[phys(st.N)] != curCfg
 	final := e.hops(w.key, st.R)
 	fail := func() bool {
 		if err != nil {
@@ -935,6 +1025,9 @@ func (p *replayer) read(i int, st step, w *wrote, variant int, curCfg string) {
 		if depth == 2 && w.packed[j] && curCfg != "absent" {
 			p.res.Nested++
 		}
+		if older && w.packed[j] && curCfg != "absent" {
+			p.res.OldConn++
+		}
 		if bytes.Equal(got[j], w.origs[j]) {
 			continue
 		}
@@ -947,6 +1040,10 @@ func (p *replayer) read(i int, st step, w *wrote, variant int, curCfg string) {
 		sig := fmt.Sprintf("read-back/redirects=%d", st.R)
 		if depth == 2 {
 			sig = fmt.Sprintf("read-back/nested-reply/redirects=%d", st.R)
+		}
+		if older {
+			sig = "read-back/connection-older-than-config"
+			name += fmt.Sprintf(" over a connection made while compression was %s", p.connCfg[phys(st.N)])
 		}
 		p.addBad(i, sig, fmt.Sprintf("%s (values at depth %d of the reply, compression %s), value %d of %d: read %d bytes (%q...), wrote %d bytes (%q...)", name, depth, curCfg, j+1, len(got),
 			len(got[j]), clip(got[j]), len(w.origs[j]), clip(w.origs[j])))
@@ -965,10 +1062,24 @@ func replayOne(e *env, id int, steps []step, rnd *rand.Rand, thr int, fresh bool
 			return
 		}
 	}
-	p := &replayer{e: e, rnd: rnd, thr: thr, id: id, res: &res, needHash: map[string]bool{}}
+	p := &replayer{e: e, rnd: rnd, thr: thr, id: id, res: &res, needHash: map[string]bool{}, curCfg: steps[0].C, connCfg: map[int]string{}}
+	ages := false
 	for _, st := range steps {
 		if st.A == "read" && st.D == 2 {
 			p.needHash[st.K] = true // only hashes are answered in nested arrays (HSCAN)
+		}
+		ages = ages || modelled(st.N)
+	}
+	if ages {
+		// Compress.tla, Init: every node is connected under the first config (a fresh processor was, by its probes)
+		for idx := range e.cl.Nodes {
+			if !fresh {
+				if err := e.reconnect(idx); err != nil {
+					res.Err = err.Error()
+					return
+				}
+			}
+			p.connCfg[idx] = steps[0].C
 		}
 	}
 	written := map[string]*wrote{}
@@ -980,10 +1091,17 @@ func replayOne(e *env, id int, steps []step, rnd *rand.Rand, thr int, fresh bool
 		switch st.A {
 		case "config":
 			curCfg = st.C
+			p.curCfg = st.C
 			if err := e.setConfig(st.C, thr); err != nil {
 				res.Err = "config update: " + err.Error()
 				return
 			}
+		case "reconnect":
+			if err := e.reconnect(phys(st.N)); err != nil {
+				res.Err = err.Error()
+				return
+			}
+			p.connCfg[phys(st.N)] = curCfg
 		case "write":
 			res.Writes++
 			if w := p.write(i, st, mix(id, i)); w != nil {
